@@ -25,6 +25,7 @@ use std::collections::{BTreeMap, VecDeque};
 use std::io::BufRead;
 
 mod inst;
+mod stem;
 
 // ------------------------------------------------------------------------------------------- ops
 
@@ -42,6 +43,10 @@ pub enum Op {
     DelIter(usize),
     NewGen,
     Normalize(usize),
+    /// like `Normalize`, but through the `MutableState` API the newer states are just dropped and the
+    /// parent is NOT touched (`get_inner`) before the next operation: the next `make_fresh_generation` /
+    /// `freeze` has to discard the abandoned generations itself
+    Abandon(usize),
     Freeze,
     Thaw(u8),
 }
@@ -64,6 +69,7 @@ impl Op {
             Op::DelIter(i) => format!("X {}", i),
             Op::NewGen => "+".into(),
             Op::Normalize(r) => format!("- {}", r),
+            Op::Abandon(r) => format!("~ {}", r),
             Op::Freeze => "F".into(),
             Op::Thaw(v) => format!("W {}", v),
         }
@@ -84,6 +90,7 @@ impl Op {
             "X" => Op::DelIter(t[1].parse().unwrap()),
             "+" => Op::NewGen,
             "-" => Op::Normalize(t[1].parse().unwrap()),
+            "~" => Op::Abandon(t[1].parse().unwrap()),
             "F" => Op::Freeze,
             "W" => Op::Thaw(t.get(1).map(|v| v.parse().unwrap()).unwrap_or(0)),
             _ => panic!("bad op {}", s),
@@ -104,6 +111,7 @@ impl Op {
             Op::DelIter(..) => "delete_iter",
             Op::NewGen => "new_generation",
             Op::Normalize(..) => "normalize",
+            Op::Abandon(..) => "abandon",
             Op::Freeze => "freeze",
             Op::Thaw(..) => "thaw",
         }
@@ -309,7 +317,7 @@ impl Reference {
                 self.gens.push(RGen { map: g.map, ents: g.ents, handles: vec![], iters: vec![] });
                 format!("g{}", self.gens.len())
             }
-            Op::Normalize(r) => {
+            Op::Normalize(r) | Op::Abandon(r) => {
                 if r + 1 < self.gens.len() {
                     self.gens.truncate(r + 1);
                 }
@@ -552,6 +560,22 @@ impl Machine {
                 }
                 format!("g{}", self.num_gens())
             }
+            Op::Abandon(r) => {
+                let Machine { backend, tabs, .. } = self;
+                match backend {
+                    Backend::Trie(t) => t.verif_normalize(*r as u32),
+                    Backend::Api(states) => {
+                        // the newer states are dropped; the parent is not touched
+                        if r + 1 < states.len() {
+                            states.truncate(r + 1);
+                        }
+                    }
+                }
+                if r + 1 < tabs.len() {
+                    tabs.truncate(r + 1);
+                }
+                format!("g{}", self.num_gens())
+            }
             Op::Freeze => {
                 let ps = self.freeze_copy();
                 let d = persistent_dump(&ps, &self.store);
@@ -650,6 +674,11 @@ fn run_history(api: bool, ops: &[Op]) -> Outcome {
             o.got = got.clone();
         }
         // direct oracle on the lock multiset: exactly the prefixes of the live iterators
+        // (not after an abandon: looking at the trie through the parent would normalise it)
+        if let Op::Abandon(_) = op {
+            o.outs.push(got);
+            continue;
+        }
         match guarded(|| m.locks()) {
             Ok(l) => {
                 if l != r.cur().locks() && o.locks_ok {
@@ -840,7 +869,7 @@ fn gen_history(rng: &mut Rng, profile: &str, maxlen: u64) -> Vec<Op> {
     let total: u64 = w.iter().sum();
     // start with a few inserts so that the tree is not trivial
     let warm = rng.below(6) as usize;
-    for _ in 0..n {
+    while ops.len() < n {
         let g = r.gens.last().unwrap();
         let nh = g.handles.len();
         let ni = g.iters.len();
@@ -880,13 +909,33 @@ fn gen_history(rng: &mut Rng, profile: &str, maxlen: u64) -> Vec<Op> {
             10 => Op::NewGen,
             11 => {
                 let ng = r.gens.len();
-                Op::Normalize(if rng.chance(1, 10) { ng + rng.below(2) as usize } else { rng.below(ng as u64) as usize })
+                let target = if rng.chance(1, 10) { ng + rng.below(2) as usize } else { rng.below(ng as u64) as usize };
+                if rng.chance(2, 5) { Op::Abandon(target) } else { Op::Normalize(target) }
             }
             12 => Op::Freeze,
             _ => Op::Thaw(rng.below(6) as u8),
         };
+        let abandoned = matches!(op, Op::Abandon(_));
         r.step(&op);
         ops.push(op);
+        // an abandoned checkpoint is typically followed by a new checkpoint of the same parent, or a freeze
+        if abandoned && ops.len() < n {
+            let follow = match rng.below(10) {
+                0..=5 => Some(Op::NewGen),
+                6 => Some(Op::Thaw(rng.below(6) as u8)),
+                _ => None,
+            };
+            if let Some(f) = follow {
+                r.step(&f);
+                ops.push(f);
+                // and look at what the new checkpoint sees
+                if ops.len() + 2 < n && rng.chance(2, 3) {
+                    let g = if rng.chance(1, 2) { Op::Freeze } else { Op::Get(uni.key(rng)) };
+                    r.step(&g);
+                    ops.push(g);
+                }
+            }
+        }
     }
     ops
 }
@@ -1147,6 +1196,12 @@ fn main() {
             inst::generate(seed, n);
         }
         "ireplay" => inst::replay(),
+        "stem" => {
+            let seed: u64 = args[2].parse().unwrap();
+            let n: u64 = args[3].parse().unwrap();
+            stem::generate(seed, n);
+        }
+        "sreplay" => stem::replay(),
         "directed" => directed(),
         _ => {
             eprintln!("usage: c03 hist|replay|prefix|preplay|inst|ireplay|directed ...");
